@@ -958,3 +958,15 @@ Proof.
     destruct Hv as [H|[H|[H|H]]]; subst it; vm_compute; reflexivity.
   - destruct Hv as [H|[H|[H|H]]]; subst it; vm_compute; intro; discriminate.
 Qed.
+
+(** observation (API level; RotationMap is not used by main()): the constructor fills xs*ys blocks whatever rotmapsize is,
+    the allocation holds max(rotmapsize*it*it, 16) entries.  With the documented value rotmapsize = xs*ys/2 the last block
+    ends beyond the allocation (8 x 8, linear interpolation: 256 entries written into 128) *)
+Lemma rg_ctor_half_table_overruns :
+  let a := {| ra_xs := 8; ra_ys := 8; ra_it := 2; ra_rotmapsize := 32; ra_clamp := false |} in
+  rg_throws a = false /\
+  exists c, In c (gen_rot_ctor_calls (rg_xs a) (rg_ys a) (rg_it a) (rg_ip a) (ra_xs a) (ra_ys a)) /\
+            gen_rot_ctor_hinfo_size (ra_xs a) (ra_ys a) (ra_it a) (ra_rotmapsize a) < fst c + rg_ip a.
+Proof.
+  cbv zeta. split; [reflexivity|]. exists (252, (7, 7)). split; [vm_compute; tauto|vm_compute; reflexivity].
+Qed.
